@@ -16,7 +16,7 @@ WT=/tmp/conf/$ID
 LOG=/root/scratch/conf-$ID.log
 mkdir -p /tmp/conf /root/scratch
 exec > >(tee "$LOG") 2>&1
-export CARGO_NET_OFFLINE=true RUST_LOG=off
+export CARGO_NET_OFFLINE=true RUST_LOG=off CARGO_TARGET_DIR=/root/scratch/conf-target
 git -C /repo worktree remove --force "$WT" 2>/dev/null
 git -C /repo worktree add --detach "$WT" HEAD >/dev/null || exit 2
 cd "$WT" || exit 2
@@ -27,7 +27,7 @@ git diff --stat | tail -3
 echo "== build guard off"
 cargo build --offline 2>&1 | tail -2
 echo "== check guard on"
-RUSTFLAGS="--cfg librqbit_utp_verif" cargo check --offline --lib --target-dir target/verifcfg 2>&1 | tail -2
+RUSTFLAGS="--cfg librqbit_utp_verif" cargo check --offline --lib --target-dir /root/scratch/conf-target-cfg 2>&1 | tail -2
 echo "== suite with mutation"
 cargo test --workspace --no-fail-fast --offline 2>&1 | grep -E "^test result|FAILED|failed" | head -20
 DEMO="$(grep -v '^\s*$' "$OUT/demo_cmd.txt" | tail -1)"
